@@ -5,6 +5,7 @@
    skipped), all item counts, worker counts, queue capacities, budgets and all user code. *)
 From Flyt Require Import Base Script FlowTable Engine BatchConc EngineCorr EngineFacts BatchConcFacts
      ItemMon BatchConcInv BatchConcItems.
+From Flyt Require Import C06Glue.
 
 (* Whatever the schedule: once the submitter is past pool.Wait() — only then is post called —
    all n slots are written (post gets a result list of the same length as the item list, with
@@ -32,10 +33,7 @@ Theorem C06_post_after_all_settled :
     let s := brun o c nd items stopmode qcap (binit items nworkers s0) sched in
     (mpc s = MClose \/ mpc s = MRet) ->
     deq s = length items /\ count_run (ws s) = 0 /\ forall i, i < length items -> slot_at s i <> None.
-Proof.
-  intros. apply (wait_is_barrier items nworkers); auto.
-  apply brun_inv. apply binit_inv.
-Qed.
+Proof. exact C06_post_after_all_settled_glue. Qed.
 Print Assumptions C06_post_after_all_settled.
 
 (* sequential and concurrent executors only append to the callback log *)
